@@ -1,6 +1,7 @@
 import Robust.Irc.Proofs.H2Base
 /-! PRIVMSG/NOTICE, the service aliases, INVITE -/
 namespace Robust.Irc
+open Rd
 open AMap
 
 /-! ### PRIVMSG / NOTICE -/
@@ -67,7 +68,7 @@ theorem cmdInvite_inert {c c' : Ctx} {sid : Id} {m : IrcMsg} (hw : WInvCore c.st
   split at hr
   · cases hr; inert_tac
   obtain ⟨c1, h1, hr⟩ := Res.bind_eq_ok.1 hr
-  have hI := (Inert.refl hw).modS hw h1 (fun _ => ⟨rfl, rfl, rfl, rfl⟩) (fun _ => rfl)
+  have hI := (Inert.refl hw).modS hw h1 (fun _ => ⟨rfl, rfl, rfl, rfl⟩) (fun _ => ⟨rfl, rfl⟩)
   obtain ⟨rc, _, hr⟩ := Res.bind_eq_ok.1 hr
   split at hr <;> (cases hr; inert_tac)
 
